@@ -241,10 +241,19 @@ def bounded(run, tier, g):
     n = 0
     shown = {}
     always = [('for(;;)', [('FOR', 'for'), ('LPAREN', '('), ('SEMI', ';'), ('SEMI', ';'), ('RPAREN', ')'), ('ID', 'x'), ('SEMI', ';')]),
-              ('for(a;;)', [('FOR', 'for'), ('LPAREN', '('), ('ID', 'a'), ('SEMI', ';'), ('SEMI', ';'), ('RPAREN', ')'), ('SEMI', ';')])]
+              ('for(a;;)', [('FOR', 'for'), ('LPAREN', '('), ('ID', 'a'), ('SEMI', ';'), ('SEMI', ';'), ('RPAREN', ')'), ('SEMI', ';')]),
+              # texts that need (or must not get) an automatic semicolon where the comment goes: the decision may not depend on capture
+              ('asi: a = 1 b = 2', [('ID', 'a'), ('EQ', '='), ('NUMBER', '1'), ('ID', 'b'), ('EQ', '='), ('NUMBER', '2')]),
+              ('asi: a b', [('ID', 'a'), ('ID', 'b')]),
+              ('asi: a ++ b', [('ID', 'a'), ('PLUSPLUS', '++'), ('ID', 'b')]),
+              ('asi: { a } b', [('LBRACE', '{'), ('ID', 'a'), ('RBRACE', '}'), ('ID', 'b')]),
+              ('asi: return a', [('FUNCTION', 'function'), ('ID', 'f'), ('LPAREN', '('), ('RPAREN', ')'), ('LBRACE', '{'), ('RETURN', 'return'),
+                                 ('ID', 'a'), ('RBRACE', '}')]),
+              ('asi: do a while (b) c', [('DO', 'do'), ('ID', 'a'), ('SEMI', ';'), ('WHILE', 'while'), ('LPAREN', '('), ('ID', 'b'), ('RPAREN', ')'),
+                                         ('ID', 'c')])]
     for label, toks in corpus[::step] + always:
         for i in range(0, len(toks) + 1):
-            comment = COMMENTS[(i + len(toks)) % len(COMMENTS)] if tier == 'quick' else None
+            comment = COMMENTS[(i + len(toks)) % len(COMMENTS)] if tier == 'quick' and not label.startswith('asi') else None
             for cm in ([comment] if comment else COMMENTS):
                 n += 1
                 probs, src = check_placement(mods, toks, i, cm)
@@ -298,6 +307,9 @@ def main(run, tier):
                        'comment token (syntactic frame obligation); every node kind that can carry comments prints them first; '
                        'placement matrix and pretty-form round trip bounded')
     run.floor = 300
+    from . import attrobl
+    import contracts.frames as _fr
+    attrobl.frame_obligations(run, _fr.COMMENT_CHANNEL)
     for f in ('calmjs.parse.lexers.es5', 'calmjs.parse.asttypes', 'calmjs.parse.unparsers.es5', 'calmjs.parse.handlers.core',
               'calmjs.parse.ruletypes', 'calmjs.parse.parsers.es5'):
         run.function(f, scratch.sha256_file(scratch.module_path(f))[:16])
